@@ -41,6 +41,7 @@ HIST_CONFIGS = [
     ("C:u32,V:Tr4,P:Tr24", ["s000", "s110", "e111"]),
     ("P:u8,C:u16,V:Tr8@8,P:TrMv8", ["s010"]),
     ("P:Ctm8,C:u32,V:Ctm8", ["s000"]),  # trivial copy constructor, user-provided move constructor
+    ("P:Cnt8,F:Cnt8,C:u16,V:Cnt8", ["s100"]),  # user-provided copy operations, trivial move operations
     ("C:u16,V:bptr,P:bptr", ["std"]),   # pointers to a base class at a non-zero offset (sources: pointers to derived)
     # mixed
     ("F:f32,P:u32,C:u64@8,V:f32", ["s000", "e100"]),
@@ -53,7 +54,7 @@ HIST_CONFIGS = [
 ALL_STATEFUL = ["s000", "s001", "s010", "s011", "s100", "s101", "s110", "s111"]
 
 PLAIN_TYPES = ["u8", "u16", "u32", "u64", "f32", "f64", "char", "byte", "bool", "enumE", "ptr", "B3", "B12", "i8", "i32", "Amp8", "bptr", "B6", "B20"]
-NT_TYPES = ["Tr4", "Tr8", "Tr24", "str", "uptr", "TrMv8", "Ctm8"]
+NT_TYPES = ["Tr4", "Tr8", "Tr24", "str", "uptr", "TrMv8", "Ctm8", "Cnt8"]
 ALIGNS = [0, 0, 0, 1, 2, 4, 8, 16, 32, 64]
 
 
@@ -123,6 +124,9 @@ HIST_PROPS = {
 }
 
 KIND_HEAVY = {"C05", "C07", "C08", "C09"}
+# thorough tier of the allocator-heavy properties: every allocator kind on these lists (one or two per category / value-type class)
+KIND_GRID_LISTS = {"P:Tr8,P:u16,P:str", "P:u32,F:f32", "F:str,P:str", "F:Tr4,P:u8,F:Tr24@8", "P:u32,C:u64@8,V:f32", "C:u64@8,V:str,P:str", "C:u32,V:Tr4,P:Tr24",
+                   "F:f32,P:u32,C:u64@8,V:f32", "F:Tr8,C:u8,V:u16@2,P:Tr4@4", "P:Cnt8,F:Cnt8,C:u16,V:Cnt8"}
 ELEMENT_PROPS = {"C03", "C04", "C06", "C07", "C08"}
 
 
@@ -216,7 +220,7 @@ def hist_units(prop, tier, seed):
     configs += [(c, [fam_kinds[i % len(fam_kinds)]]) for i, c in enumerate(hist_family(frng, 8 if tier == "quick" else 32))]
     if tier == "thorough":
         configs += sampled_configs(seed, 24)
-    cases = 1500 if tier == "quick" else 3000
+    cases = 1500 if tier == "quick" else 2000
     # developer aids (not used by the registered commands)
     if os.environ.get("VERIF_EXTRA_CFG"):
         configs += [(c, ["s111d", "s000"]) for c in os.environ["VERIF_EXTRA_CFG"].split(";")]
@@ -228,8 +232,8 @@ def hist_units(prop, tier, seed):
     curated = set(c for c, _ in HIST_CONFIGS)
     for cfg, kinds in configs:
         ks = list(kinds)
-        if prop in KIND_HEAVY and tier == "thorough" and cfg in curated:
-            ks = sorted(set(ks + ALL_STATEFUL + ["std", "e100", "e010", "e001", "e111"]))  # the whole propagation-trait grid on the curated lists
+        if prop in KIND_HEAVY and tier == "thorough" and cfg in KIND_GRID_LISTS:
+            ks = sorted(set(ks + ALL_STATEFUL + ["std", "e100", "e010", "e001", "e111"]))  # the whole propagation-trait grid on one list per category
         elif prop == "C08":
             pass
         for k in ks:
@@ -243,15 +247,20 @@ def hist_units(prop, tier, seed):
                 a["focus"] = prop
                 n = cases if fl != "casan" else cases // 3
                 units.append(Unit("hist", cfg, k, fl, a, n, batch=100))
-    # dedicated probe units for the open findings of this property: no avoidance, so the listed defect is still driven
+    # dedicated probe units for the open findings of this property: no avoidance, so the listed defect is still driven.
+    # C16 ("erase requests nothing from the allocator") borrows the probe of the erase finding: the bulk of its histories
+    # steers around that zone, and a repair of the finding that relocates through an allocated temporary shows only there.
     for f in known:
-        if f.get("status") == "open" and f["property"] == prop and f.get("probe", {}).get("engine") == "hist":
+        borrowed = prop == "C16" and f.get("id") == "KF-erase-overlap-C06"
+        if f.get("status") == "open" and (f["property"] == prop or borrowed) and f.get("probe", {}).get("engine") == "hist":
             pr = f["probe"]
             for cfg in pr["cfgs"]:
                 for fl in ["plain", "asan"]:
                     a = dict(tier_limits(tier))
                     a.update({"profile": pr.get("profile", profile), "seed": seed})
-                    units.append(Unit("hist", cfg, pr["kind"], fl, a, pr.get("cases", 20), label="probe:%s|hist|%s|%s|%s" % (f["id"], cfg, pr["kind"], fl)))
+                    if borrowed:
+                        a["focus"] = prop
+                    units.append(Unit("hist", cfg, pr["kind"], fl, a, pr.get("cases", 20) * (10 if borrowed else 1), label="probe:%s|hist|%s|%s|%s" % (f["id"], cfg, pr["kind"], fl)))
     return units
 
 
@@ -450,7 +459,7 @@ REF_CONFIGS = [
     ("P:u32", "std"), ("P:str", "s000"), ("P:u32,P:u16", "s000"), ("P:u32,P:str", "std"), ("P:str,P:u8", "s111"), ("P:u8,P:Tr8,P:u16", "s000"),
     ("P:str,P:u32,P:Tr4", "s010"), ("P:u8,P:u16@2,P:str", "s000"), ("F:u16,P:str,F:u8", "s000"), ("C:u32,V:u16,P:str", "s100"), ("C:u8,V:Tr4,P:u8@4", "s000"),
     ("F:uptr,P:uptr", "s000"), ("C:u64@8,V:uptr,P:u16", "std"), ("F:f32@8,P:u32@16,F:f32", "s001"), ("P:u32,C:u64@8,V:f32", "s000"), ("F:Tr8,C:u8,V:u16@2,P:Tr4@4", "s000"),
-    ("P:Amp8,P:u16,P:Amp8", "s000"), ("F:Ctm8,P:u16", "s000"), ("P:TrMv8,F:u8,P:TrMv8", "s011"), ("C:u64@8,V:str,P:str", "s000"), ("P:bool,P:enumE,F:ptr,P:B12@4", "s000d"), ("C:u16,V:B3,C:u32,V:u64@8", "s000"),
+    ("P:Amp8,P:u16,P:Amp8", "s000"), ("F:Ctm8,P:u16", "s000"), ("P:u16,P:Cnt8,F:Cnt8", "s000"), ("P:Cnt8,C:u8,V:Cnt8", "std"), ("P:TrMv8,F:u8,P:TrMv8", "s011"), ("C:u64@8,V:str,P:str", "s000"), ("P:bool,P:enumE,F:ptr,P:B12@4", "s000d"), ("C:u16,V:B3,C:u32,V:u64@8", "s000"),
 ]
 REF_RULE = "per case one vector (1..7 elements of equal field sizes) and a model; sequences of <= 30 steps: writes through 8 access paths each cross-read through up to 16 paths, reference copy / move assignment in 5 forms, swap / iter_swap, std::rotate / reverse / swap_ranges against the same algorithm on the model, iterator arithmetic and comparisons against index arithmetic for all index pairs in [0, size()]; non-trivial: a permuting algorithm moved >= 2 elements; distinct: hash of the operation list"
 
@@ -506,7 +515,7 @@ ELEM_CONFIGS = [
     ("C:u8,V:u8,P:u16@4", "s101"), ("C:u64@8,V:uptr,P:uptr", "s000"), ("C:u64@8,V:str,P:str", "stdm"), ("C:u32,V:Tr4,P:Tr24", "s000"), ("P:u8,C:u16,V:Tr8@8,P:TrMv8", "s010"),
     ("F:f32,P:u32,C:u64@8,V:f32", "s000d"), ("F:Tr8,C:u8,V:u16@2,P:Tr4@4", "s111d"), ("C:u32,V:Tr8,C:u8,V:str", "s000"), ("C:u16,V:B3,C:u32,V:u64@8", "s110"),
     # always-equal allocators with distinguishable instances: memory is interchangeable, get_allocator() still follows the traits
-    ("P:Amp8,P:u32", "s000"), ("P:Amp8,C:u32,V:Amp8", "s100"), ("P:Ctm8,C:u32,V:Ctm8", "s000"), ("F:Ctm8,P:u16", "s010"),
+    ("P:Cnt8,F:Cnt8", "s000"), ("P:Cnt8,C:u32,V:Cnt8", "s100"), ("P:Amp8,P:u32", "s000"), ("P:Amp8,C:u32,V:Amp8", "s100"), ("P:Ctm8,C:u32,V:Ctm8", "s000"), ("F:Ctm8,P:u16", "s010"),
     ("P:u32,F:f32", "e100"), ("F:Tr4,P:u8,F:Tr24@8", "e111"), ("C:u32,V:Tr4,P:Tr24", "e100"), ("P:Tr8,P:u16,P:str", "e010"), ("P:u32,C:u64@8,V:f32", "e001"), ("F:str,P:str", "e000"),
 ]
 ELEM_RULE = "per case one source vector (2..5 elements in two size classes plus outliers) and a pool of 4 elements; sequences of <= 30 steps: construction from lvalue / const / rvalue references with and without allocator, copy / move / allocator-extended construction from elements, copy / move assignment (also into moved-from elements), element = reference and reference = element of equal sizes, swap, mutation of either side, destruction; after every step values, independence, allocator identity, block ownership, layout, alignment, object registry and ledger; non-trivial: >= 2 assignments between elements of different field sizes (lists without VaryingSize: >= 2 assignments); distinct: hash of the operation list"
